@@ -347,6 +347,50 @@ def _bounded_chunk(args):
     return out
 
 
+def dense_text(v, sn):
+    """the text of segment sn with a value at every leaf position the version defines and has not withdrawn"""
+    L = T.lib(v)
+    tab = T.seg_rows(v, sn) or []
+    fields = []
+    for r in tab:
+        if r["max"] == 0:
+            fields.append("")
+        elif r["kind"] != "complex":
+            fields.append("1")
+        else:
+            comps = []
+            for c in (T.dt_rows(v, r["dt"]) or []):
+                if c["max"] == 0:
+                    comps.append("")
+                elif c["kind"] != "complex":
+                    comps.append("1")
+                else:
+                    comps.append("&".join("" if card[1] == 0 else "1" for (_n, _ref, card, _cls) in L.DATATYPES_STRUCTS.get(c["dt"], ())))
+            fields.append("^".join(comps))
+    return "|".join([sn] + fields)
+
+
+def _alone_chunk(args):
+    """segments validated on their own: a value at every leaf the version defines (conforming: no error); content in a
+    segment the version defines without fields (a child the parent does not allow: reported)"""
+    import_hl7apy()
+    from hl7apy.parser import parse_segment
+    v, segnames = args
+    out = []
+    for sn in segnames:
+        tab = T.seg_rows(v, sn)
+        if tab is None or sn == "MSH":
+            continue
+        text, mut = (dense_text(v, sn), "every_leaf_populated") if tab else (sn + "|x|y", "content_in_fieldless_segment")
+        try:
+            seg = parse_segment(text, version=v)
+        except Exception as ex:
+            out.append({"harness_note": "segment alone %s %s: %s" % (v, sn, exc_name(ex))})
+            continue
+        out.append(observe(seg, v, sn, [], "segment_alone", mut))
+    return out
+
+
 def order_batch(order):
     """the same observations in the given order of versions, in ONE process: Z fields of every complex datatype (one
     component given, the first one left out), a conforming and a defective message per version"""
@@ -423,6 +467,25 @@ def run(ctx):
                 events.append(e)
                 nb += 1
     ctx.extra["bounded_field_observations"] = nb
+    # segments validated on their own: every leaf populated / content in a field-less segment
+    aj = []
+    for v in T.versions():
+        segn = [s_ for s_ in T.seg_names(v) if len(s_) == 3 and s_ != "MSH" and T.seg_rows(v, s_) is not None]
+        fieldless = [s_ for s_ in segn if not T.seg_rows(v, s_)]
+        if quick:
+            rnd.shuffle(segn)
+            segn = sorted(set(segn[:25] + fieldless))
+        for k in range(2):
+            aj.append((v, segn[k::2]))
+    na = 0
+    for part in pmap(_alone_chunk, aj):
+        for e in part:
+            if "harness_note" in e:
+                ctx.notes.append(e["harness_note"])
+            else:
+                events.append(e)
+                na += 1
+    ctx.extra["segments_validated_alone"] = na
     # the verdict does not depend on what was validated before: the same observations in two orders of the versions
     vs = T.versions()
     fwd, rev = pmap(order_batch, [vs, list(reversed(vs))])
